@@ -50,7 +50,6 @@ class IsValidForVersion(Contract):
 
     def build(self, E, case):
         node, lo, hi = mk_schema_node(E, case)
-        self._b = (lo, hi)
         return (mk_validator(E), node, E.real("version")), {}
 
     def ensures(self, E, case, args, kwargs, out):
@@ -548,12 +547,12 @@ class CreateMessage(Contract):
             root = _obj(E, "root", "map", [(k, E.str("val"))], with_pos=False)
             path = [k]
             exp = dict(name=k, pos=None)
-        self._exp = exp
+        E.__dict__["exp"] = exp
         return (v, root, path, ErrGhost(E.str("jsonschema.message")), False), {}
 
     def ensures(self, E, case, args, kwargs, out):
         v, root, path, err, add = args
-        exp = self._exp
+        exp = E.__dict__["exp"]
         ok = out.kind == "return" and isinstance(out.value, MDict)
         yield "total(returns-a-message)", ok
         if not ok:
